@@ -1285,6 +1285,13 @@ void readin (void)
 
 	skelout(false);	/* [0.0] Make hook macros available, silently */
 
+	/* Line directives may have been put into the action and %top
+	 * buffers before "%option noline" was seen: each of them tests this
+	 * hook.
+	 */
+	if (!ctrl.gen_line_dirs)
+		out ("m4_undefine([[M4_HOOK_TRACE_LINE_FORMAT]])m4_dnl\n");
+
 	comment("A lexical scanner generated by flex\n");
 
 	/* Dump the %top code. */
